@@ -198,35 +198,7 @@ def run(fx, tier):
         v.check(ok, 'R-DOM', 'assemble_op::dispatch%s [%s]' % (f.inst(), f.tu),
                 'replies are routed with (control byte & 0xF0, id decoded from this packet, this packet\'s span)',
                 key='C01:R-DOM:assemble_op::dispatch', where=f.file)
-    # fast replies (acknowledgements that arrived before anybody waited for them) must not outlive the
-    # start of the next write: otherwise an acknowledgement received BEFORE a packet was written could
-    # satisfy the waiter registered AFTER that write (stale acknowledgement)
-    for f in fx.functions(cls='async_sender', name='do_write'):
-        v.saw(f)
-        writes = [(b, i, l) for b, i, l, c in f.calls() if callee_name(c) == 'async_write' and callee_cls(c) == 'autoconnect_stream']
-        purges = [(b, i, l) for b, i, l, c in f.calls() if callee_name(c) == 'clear_fast_replies']
-        if not writes:
-            raise AnalysisBroken('async_sender::do_write: stream write not found')
-        dom = f.dominators()
-        for (wb, wi, wl) in writes:
-            ok = any((pb == wb and pi_ < wi) or (pb != wb and pb in dom.get(wb, set())) for (pb, pi_, pl) in purges)
-            v.check(ok, 'R-DOM', 'async_sender::do_write:purge-before-write [%s]' % f.tu,
-                    'every initiation of a stream write is preceded (dominated) by clear_fast_replies(): an early '
-                    'acknowledgement cannot survive into the exchange that starts with this write',
-                    key='C01:R-DOM:do_write:purge-fast-replies', where='%s:%d' % (f.path_file(), wl))
-    for f in fx.fns:
-        if f.cls == 'replies' and not f.lam:
-            for b, i, l, c in f.calls():
-                if callee_name(c) in ('push_back', 'emplace_back') and 'obj' in c and is_member_of_this(c['obj'], '_fast_replies'):
-                    v.check(f.n == 'dispatch', 'R-DOM', 'replies::%s stores a fast reply [%s]' % (f.n, f.tu),
-                            'fast replies are stored only by dispatch()', key='C01:R-DOM:fast-reply-writer:%s' % f.n,
-                            where='%s:%d' % (f.path_file(), l))
-    for f in fx.functions(cls='replies', name='async_wait_reply'):
-        v.saw(f)
-        erases = [c for _, _, _, c in f.calls() if callee_name(c) == 'erase' and 'obj' in c and is_member_of_this(c['obj'], '_fast_replies')]
-        v.check(len(erases) == 1, 'R-DOM', 'replies::async_wait_reply%s:consumes-fast-reply [%s]' % (f.inst(), f.tu),
-                'a fast reply handed to a waiter is erased (used at most once)', key='C01:R-DOM:async_wait_reply:erase-fast-reply',
-                where=f.file)
+    fast_reply_rules(fx, v, 'C01')
     v.expect_min('R-CGRAPH', 6, 'success-capable completions')
     v.expect_min('R-FLOW', 40, 'reason code / props / span / wait / encode sites')
     v.expect_min('R-DOM', 15, 'matching predicates × TUs')
@@ -257,3 +229,36 @@ def _is_field_of_elem(s, nm):
         o = core(s.get('b'))
         return isinstance(o, dict) and o.get('k') == 'ref' and o.get('dk') == 'param'
     return False
+
+
+def fast_reply_rules(fx, v, prop):
+    """shared by every property whose completion is satisfied through the replies registry (C01, C14)"""
+    # fast replies (acknowledgements that arrived before anybody waited for them) must not outlive the
+    # start of the next write: otherwise an acknowledgement received BEFORE a packet was written could
+    # satisfy the waiter registered AFTER that write (stale acknowledgement)
+    for f in fx.functions(cls='async_sender', name='do_write'):
+        v.saw(f)
+        writes = [(b, i, l) for b, i, l, c in f.calls() if callee_name(c) == 'async_write' and callee_cls(c) == 'autoconnect_stream']
+        purges = [(b, i, l) for b, i, l, c in f.calls() if callee_name(c) == 'clear_fast_replies']
+        if not writes:
+            raise AnalysisBroken('async_sender::do_write: stream write not found')
+        dom = f.dominators()
+        for (wb, wi, wl) in writes:
+            ok = any((pb == wb and pi_ < wi) or (pb != wb and pb in dom.get(wb, set())) for (pb, pi_, pl) in purges)
+            v.check(ok, 'R-DOM', 'async_sender::do_write:purge-before-write [%s]' % f.tu,
+                    'every initiation of a stream write is preceded (dominated) by clear_fast_replies(): an early '
+                    'acknowledgement cannot survive into the exchange that starts with this write',
+                    key='%s:R-DOM:do_write:purge-fast-replies' % prop, where='%s:%d' % (f.path_file(), wl))
+    for f in fx.fns:
+        if f.cls == 'replies' and not f.lam:
+            for b, i, l, c in f.calls():
+                if callee_name(c) in ('push_back', 'emplace_back') and 'obj' in c and is_member_of_this(c['obj'], '_fast_replies'):
+                    v.check(f.n == 'dispatch', 'R-DOM', 'replies::%s stores a fast reply [%s]' % (f.n, f.tu),
+                            'fast replies are stored only by dispatch()', key='%s:R-DOM:fast-reply-writer:%s' % (prop, f.n),
+                            where='%s:%d' % (f.path_file(), l))
+    for f in fx.functions(cls='replies', name='async_wait_reply'):
+        v.saw(f)
+        erases = [c for _, _, _, c in f.calls() if callee_name(c) == 'erase' and 'obj' in c and is_member_of_this(c['obj'], '_fast_replies')]
+        v.check(len(erases) == 1, 'R-DOM', 'replies::async_wait_reply%s:consumes-fast-reply [%s]' % (f.inst(), f.tu),
+                'a fast reply handed to a waiter is erased (used at most once)', key='%s:R-DOM:async_wait_reply:erase-fast-reply' % prop,
+                where=f.file)
